@@ -39,6 +39,14 @@ def run_shard(prop, tier, seed, shard, nshards, scale, out):
 
     ctx.extra["py_gql_file"] = [py_gql.__file__]
     try:
+        # a library defect that grows memory without bound should surface as MemoryError inside the
+        # check (a violation with a witness), not as a shard killed by the kernel
+        import resource
+
+        resource.setrlimit(resource.RLIMIT_AS, (8 << 30, 8 << 30))
+    except Exception:
+        pass
+    try:
         mod.run(ctx)
     except Exception:
         import traceback
